@@ -3,7 +3,7 @@
    Hence an implementation trace that fails the monitor necessarily differs from the model's trace
    (a correspondence mismatch), and is a concrete input on which the property fails. *)
 From FRP Require Import Model.Router Model.RouteSpec Corr.C06
-  Proofs.RouterProofs Proofs.RouteSpecProofs Proofs.RouteClauses.
+  Proofs.RouterProofs Proofs.RouteSpecProofs Proofs.RouteClauses Proofs.RouterSchedProofs.
 Open Scope Z_scope.
 
 Inductive mq_script :=
@@ -54,10 +54,10 @@ Proof.
 Qed.
 
 (* and the model's own trace is accepted by the model comparison, so [check_case] = 0 on it *)
-Lemma mq_check_router_zero script : forall s spec i, rc_sim s spec ->
-  check_router s spec i (mq_trace s script) = 0.
+Lemma mq_check_router_zero w script : rt_walk_src_std w = true -> forall s spec i, rc_sim s spec ->
+  check_router w s spec i (mq_trace s script) = 0.
 Proof.
-  induction script as [|o script IH]; intros s spec i Hsim; [reflexivity|].
+  intro Hw. induction script as [|o script IH]; intros s spec i Hsim; [reflexivity|].
   destruct o as [d l u pay|d l u|h p u|canon h p u]; simpl.
   - pose proof (rc_sim_add_none s spec d l u pay Hsim) as Hn.
     pose proof (rc_sim_step s spec (RAdd d l u pay) Hsim) as Hstep. simpl in Hstep.
@@ -68,7 +68,7 @@ Proof.
     + rewrite A, B. simpl. apply IH. exact Hsim.
   - apply IH. exact (rc_sim_step s spec (RDel d l u) Hsim).
   - rewrite mq_optZ_refl. apply IH. exact Hsim.
-  - rewrite mq_optZ_refl. simpl. rewrite <- (rc_sim_get_vhost s spec _ p u Hsim), mq_optZ_refl. simpl. apply IH. exact Hsim.
+  - rewrite (rs_walk_src_std_sound w Hw), mq_optZ_refl. simpl. rewrite <- (rc_sim_get_vhost s spec _ p u Hsim), mq_optZ_refl. simpl. apply IH. exact Hsim.
 Qed.
 
 (* ---------- the same for the HTTP layer ---------- *)
